@@ -78,7 +78,6 @@ theorem evalExpr_infix (env : Env) (cur : J) (key : Option Part) (l r : Expr) (o
 theorem evalExpr_func (env : Env) (cur : J) (key : Option Part) (name : Str) (args : List Expr) :
     evalExpr env cur key (.func name args) = combineFunc env name (evalArgs env cur key args) := by
   simp only [evalExpr, combineFunc]
-  rfl
 
 theorem evalLits_eq_map (env : Env) (cur : J) (key : Option Part) (es : List Expr) :
     evalLits env cur key es = (evalArgs env cur key es).map litOf := by
